@@ -258,9 +258,10 @@ theorem prefix_search_means_prefix (hist cline : List Nat) (h : lineMatches fals
 example : (insertMatch { src := [[111, 110, 101], [116, 119, 111], [97, 98, 99]] } [116] 1 true false false).line = [116, 119, 111] := by
   decide
 
-/-- C09 over any number of commands and CALLS: a user walks up and down the history, types on the line
-being typed, and accepts lines (the typed one, or a stored entry as it is) — any sequence of these, of any
-length, from any history. Whenever the position is on the history, the buffer is EXACTLY the stored entry
+/-- C09 over any number of commands and CALLS: a user walks up and down the history, searches it
+(history-search-backward/forward, the substring searches: `searchCmd`, matching against the line being
+typed as `Sources.getLine` reconstructs it), types on the line being typed, and accepts lines (the typed
+one, or a stored entry as it is) — any sequence of these, of any length, from any history. Whenever the position is on the history, the buffer is EXACTLY the stored entry
 at that position, counted from the newest entry of the history as it is now; and the history itself only
 grew at its end. (`runUnedited` stops at an edit of a history line: the library keeps such an edit with
 the line, which is another matter.) `m` is the history-size limit (−1: none). -/
@@ -271,6 +272,12 @@ theorem walking_and_accepting_show_the_stored_entries (m : Int) (src : List (Lis
     ∃ more, s.src = src ++ more := by
   obtain ⟨i, more, e⟩ := run_inv m ops { src := src } s (inv_start src) h
   exact ⟨i.oe, more, e⟩
+
+-- non-vacuity with a search: history [ab, b, abc], `a` typed, prefix search backward twice: `abc` then `ab`
+example :
+    (match runUnedited (-1) { src := [[97, 98], [98], [97, 98, 99]] } [.type 97, .search false false, .search false false] with
+      | .ok s => (s.line, s.hpos) | .error _ => ([0], 0)) = ([97, 98], 3) := by
+  decide
 
 -- non-vacuity, and the defect this theorem did not hold with: history [a, b, c]; up, up shows `b`; accept;
 -- in the next call up, up, up shows `b` (the new last entry), `c`, `b` — with the `Save` of the accepted line
